@@ -16,6 +16,11 @@ class RichDB(mm.GenDB):
         self.with_not = rng.random() < 0.6
         self.with_dv = rng.random() < 0.5
         self.with_symbol = rng.random() < 0.4
+        # (C17, after the repairs F17/F18) a top-level $d placed AFTER an assertion over both variables, used with equal variables;
+        # a variable-free $e outside any block, cited by the lemmas after it
+        self.with_late_d = rng.random() < 0.6
+        self.with_top_ess = rng.random() < 0.35
+        self.top_ess_at = rng.randint(0, max(0, n_lemmas - 1))
         if self.with_not:
             self.ctors['\\not'] = 1
             self.ctor_vars['\\not'] = [rng.choice(self.vars)]
@@ -38,7 +43,7 @@ class RichDB(mm.GenDB):
         if self.with_dv:
             # element variables, a top-level $d, an axiom with its own $d in a nested block
             tc = self.elvar_typecode = rng.choice(('#ElementVariable', '#ElementVariable', 'setvar'))
-            st[0] = ('c', st[0][1] + [tc, '\\forall', '\\neq'])
+            st[0] = ('c', st[0][1] + [tc, '\\forall', '\\neq', '\\eqq', '\\neqq'])
             st.insert(2, ('v', ['x', 'y', 'z', 'a', 'b']))
             evs = ['x', 'y', 'z', 'a', 'b']
             rng.shuffle(evs)
@@ -47,6 +52,14 @@ class RichDB(mm.GenDB):
             # one $d statement over three variables: every pair is disjoint, adjacent in the statement or not
             d3 = ['x', 'y', 'z']
             rng.shuffle(d3)
+            if self.with_late_d:
+                # `ax-eqq` is stated BEFORE `$d a b` (no condition: may be used with a = b), `ax-neqq` after it; the $d
+                # statement may have further variables that a slice does not need
+                st.append(('a', 'ax-eqq', ['|-', '(', '\\eqq', 'a', 'b', ')']))
+                late = ['a', 'b'] + rng.sample(['x', 'y', 'z'], rng.randint(0, 2))
+                rng.shuffle(late)
+                st.append(('d', late))
+                st.append(('a', 'ax-neqq', ['|-', '(', '\\neqq', 'a', 'b', ')']))
             st.append(('d', d3))
             st.append(('block', [('d', ['a', 'b']), ('a', 'ax-distinct', ['|-', '(', '\\neq', 'a', 'b', ')'])]))
             st.append(('a', 'forall-is-pattern', ['#Pattern', '(', '\\forall', 'x', self.vars[0], ')']))
@@ -62,9 +75,16 @@ class RichDB(mm.GenDB):
             st.insert(fi, ('v', [late]))
         v = mm.verify(st)
         for k in range(self.n_lemmas):
+            if self.with_top_ess and k == self.top_ess_at:
+                # an essential hypothesis outside any block: a hypothesis of every assertion after it
+                self.top_hyp = ('\\imp', self.consts[0], self.rand_term(1, []))
+                st.append(('e', 'tophyp', ['|-'] + mm.term_toks(self.top_hyp)))
+                v = mm.verify(st)
+            tops = [e[0] for e in v.frames[0].e]      # active essential hypotheses of the outermost scope
             tv = self.vars[:rng.randint(0, 3)]
             lab = 'goal' if k == self.n_lemmas - 1 else f'lemma{k}'
             with_hyp = rng.random() < 0.35
+            cite_top = bool(tops) and rng.random() < 0.5
             if with_hyp:
                 # ${ lab.0 $e |- H $.  lab $p |- ( \imp C H ) $= ... $}
                 H = self.rand_term(1, tv)
@@ -74,9 +94,36 @@ class RichDB(mm.GenDB):
                 p1 = pb.assertion_steps('proof-rule-prop-1', {self.p1_vars[0]: H, self.p1_vars[1]: C}, [])
                 steps = pb.assertion_steps('proof-rule-mp', {self.mp_vars[0]: H, self.mp_vars[1]: concl}, [p1, [f'{lab}.0']])
                 used = [x for x in mm.term_toks(H) + mm.term_toks(concl) if x in self.vars]
-                mand = [f'{x}-is-pattern' for x in self.float_order if x in used] + [f'{lab}.0']
+                mand = [f'{x}-is-pattern' for x in self.float_order if x in used] + tops + [f'{lab}.0']
                 goal = concl
                 hyps = [('e', f'{lab}.0', ['|-'] + mm.term_toks(H))]
+            elif cite_top:
+                # |- ( \imp C H ) from the hypothesis `tophyp : |- H` stated outside any block
+                H = self.top_hyp
+                C = self.rand_term(1, tv)
+                concl = ('\\imp', C, H)
+                pb = mm.ProofBuilder(self, v)
+                p1 = pb.assertion_steps('proof-rule-prop-1', {self.p1_vars[0]: H, self.p1_vars[1]: C}, [])
+                steps = pb.assertion_steps('proof-rule-mp', {self.mp_vars[0]: H, self.mp_vars[1]: concl}, [p1, ['tophyp']])
+                used = [x for x in mm.term_toks(concl) if x in self.vars]
+                mand = [f'{x}-is-pattern' for x in self.float_order if x in used] + tops
+                goal = concl
+                hyps = []
+            elif self.with_dv and self.with_late_d and rng.random() < 0.4:
+                order = [s_[3] for s_ in st if s_[0] == 'f']
+                pb = mm.ProofBuilder(self, v)
+                if rng.random() < 0.6:
+                    # |- ( \eqq X X ): `ax-eqq` with both variables equal (it precedes `$d a b`)
+                    X = rng.choice(['x', 'y', 'z', 'a', 'b'])
+                    steps = pb.assertion_steps('ax-eqq', {'a': X, 'b': X}, [])
+                    goal = ('\\eqq', X, X)
+                    mand = [f'{X}-is-elvar'] + tops
+                else:
+                    # |- ( \neqq a b ): `ax-neqq` needs `$d a b`, which the top-level statement provides
+                    steps = pb.assertion_steps('ax-neqq', {'a': 'a', 'b': 'b'}, [])
+                    goal = ('\\neqq', 'a', 'b')
+                    mand = [f'{u}-is-elvar' for u in order if u in ('a', 'b')] + tops
+                hyps = []
             elif self.with_dv and rng.random() < 0.3:
                 # |- ( \neq X Z ) from ax-distinct: needs $d X Z in the lemma's frame (given by the three-variable $d)
                 X, Z = rng.sample(['x', 'y', 'z'], 2)
@@ -84,7 +131,7 @@ class RichDB(mm.GenDB):
                 steps = pb.assertion_steps('ax-distinct', {'a': X, 'b': Z}, [])
                 goal = ('\\neq', X, Z)
                 order = [s_[3] for s_ in st if s_[0] == 'f']
-                mand = [f'{u}-is-elvar' for u in order if u in (X, Z)]
+                mand = [f'{u}-is-elvar' for u in order if u in (X, Z)] + tops
                 hyps = []
             elif self.with_dv and rng.random() < 0.3:
                 # generalisation over x of a closed theorem (the $d of `gen` is satisfied trivially)
@@ -92,15 +139,15 @@ class RichDB(mm.GenDB):
                 pb = mm.ProofBuilder(self, v)
                 steps = pb.assertion_steps('gen', {self.vars[0]: A, 'x': 'x'}, [pa(pb)])
                 goal = ('\\forall', 'x', A)
-                mand = ['x-is-elvar']
+                mand = ['x-is-elvar'] + tops
                 hyps = []
             else:
                 goal, build = mm.gen_tree(rng, self, rng.randint(1, 3), tv)
                 steps = build(mm.ProofBuilder(self, v))
                 used = [x for x in mm.term_toks(goal) if x in self.vars]
-                mand = [f'{x}-is-pattern' for x in self.float_order if x in used]
+                mand = [f'{x}-is-pattern' for x in self.float_order if x in used] + tops
                 hyps = []
-            is_gen = goal[0] in ('\\forall', '\\neq') if isinstance(goal, tuple) else False
+            is_gen = goal[0] in ('\\forall', '\\neq', '\\eqq', '\\neqq') if isinstance(goal, tuple) else False
             arity = {l: (0 if e[0] in ('f', 'e') else len(e[2]) + len(e[3])) for l, e in v.labels.items()}
             arity[f'{lab}.0'] = 0
             proof = (mm.compress_with_reuse(rng, steps, arity, mand) if rng.random() < 0.6 else mm.compress(steps, mand))[0]
